@@ -21,17 +21,32 @@ SCHEDULES = [('full', 'long'), ('list', 'long'), ('trunc', 'short'), ('full', 's
 TOL = 1e-8
 
 
-def grid(tier):
-    """(model, L) pairs, explicit_plus_hc values and #initial product states per sector."""
+def option_grid(name):
+    """(diag, combine, chi, sweeps) tuples: 'full' = whole product; 'checker' = every (diag, schedule) pair with combine
+    alternating on the checkerboard (all pairs of option values covered); 'mini' = two eigensolvers only."""
+    out = []
+    for i, diag in enumerate(DIAGS):
+        for j, (chi, sweeps) in enumerate(SCHEDULES):
+            for combine in (False, True):
+                if name == 'full' or (combine == bool((i + j) % 2) and (name == 'checker' or diag in ('default', 'lanczos'))):
+                    out.append((diag, combine, chi, sweeps))
+    return out
+
+
+def plan(tier):
+    """(model, L, #initial product states per sector, sectors 'all'|'central', option grid) entries."""
     if tier == 'quick':
-        return [('xxz', 4), ('cfermi', 4), ('expdecay', 4), ('kitaev', 3), ('spin1', 3)], 1
-    ml = [(m, L) for m in Z.MODELS for L in (3, 4)] + [(m, 6) for m in ('xxz', 'cfermi', 'expdecay', 'j1j2', 'tfi')]
-    return ml, 2
+        return [('xxz', 4, 1, 'all', 'checker'), ('cfermi', 4, 1, 'all', 'checker'), ('spin1', 3, 1, 'all', 'checker')]
+    p = [(m, 4, 2 if m in ('xxz', 'cfermi') else 1, 'all', 'full') for m in Z.MODELS if m not in ('spin1', 'bose')]
+    p += [(m, 3, 1, 'all', 'full') for m in ('spin1', 'bose', 'xxz', 'cfermi', 'kitaev')]
+    p += [(m, 6, 1, 'central', 'checker') for m in ('xxz', 'cfermi', 'expdecay')]
+    p += [(m, 8, 1, 'central', 'mini') for m in ('xxz', 'cfermi')]
+    return p + [('xxz', 10, 1, 'central', 'mini')]
 
 
 def units(tier, seed, label):
-    ml, ninit = grid(tier)
-    us = [('dmrg', m, L, ephc, e, mx, ninit, seed) for m, L in ml for ephc in (False, True) for e in ENGINES for mx in MIXERS]
+    us = [('dmrg', m, L, ephc, e, mx, ninit, sectors, og, seed) for m, L, ninit, sectors, og in plan(tier)
+          for ephc in (False, True) for e in ENGINES for mx in MIXERS]
     return us
 
 
@@ -125,27 +140,26 @@ def run_dmrg_case(c, M=None):
 
 
 def run_dmrg_unit(unit):
-    _, model, L, ephc, engine, mixer, ninit, seed = unit
+    _, model, L, ephc, engine, mixer, ninit, sectors, og, seed = unit
     ref = reference(model, L, seed)
     M = Z.tenpy_model(model, L, ephc, seed)
     ev = nontriv = 0
     viol, outcomes, samples = [], set(), []
-    for sector in ref.sectors:
+    mid = len(ref.sectors) // 2
+    for sector in (ref.sectors if sectors == 'all' else ref.sectors[max(mid - 1, 0):mid + 2]):
         for init in pick_inits(ref, sector, ninit):
-            for diag in DIAGS:
-                for combine in (False, True):
-                    for chi, sweeps in SCHEDULES:
-                        c = dict(kind='dmrg', model=model, L=L, ephc=ephc, seed=seed, engine=engine, mixer=mixer, diag=diag,
-                                 combine=combine, chi=chi, sweeps=sweeps, sector=list(sector), init=init)
-                        bad, info = run_dmrg_case(c, M)
-                        ev += 1
-                        nontriv += info.get('dim', 0) > 1
-                        outcomes.add(info['outcome'])
-                        for key, msg in bad:
-                            if sum(v['key'] == key for v in viol) < 3:
-                                viol.append(dict(key=key, what='%s | %s' % (msg, c), case=c))
-                        if not samples:
-                            samples.append(c)
+            for diag, combine, chi, sweeps in option_grid(og):
+                c = dict(kind='dmrg', model=model, L=L, ephc=ephc, seed=seed, engine=engine, mixer=mixer, diag=diag,
+                         combine=combine, chi=chi, sweeps=sweeps, sector=list(sector), init=init)
+                bad, info = run_dmrg_case(c, M)
+                ev += 1
+                nontriv += len(ref.levels[sector]) > 1
+                outcomes.add(info['outcome'])
+                for key, msg in bad:
+                    if sum(v['key'] == key for v in viol) < 2:
+                        viol.append(dict(key=key, what='%s | %s' % (msg, c), case=c))
+                if not samples:
+                    samples.append(c)
     return dict(evaluations=ev, nontrivial_count=nontriv, outcomes=outcomes, violations=viol, samples=samples)
 
 
